@@ -207,6 +207,30 @@ def _patch_control(prop, name, patch):
         shutil.rmtree(tmp, ignore_errors=True)
 
 
+# repairs of recorded findings: on a scratch copy with the repair applied the check must exit 0 *and* print no
+# KNOWN-FINDING line (the finding is reported because the tree has it, not because the file lists it)
+REPAIRS = [
+    ("repair/D11", "seeded/repair/D11.diff", ("C03", "C04", "C05", "C07", "C16", "C19")),
+]
+
+
+def _repair_control(prop, name, patch):
+    tmp = tempfile.mkdtemp(prefix="rtcpctl")
+    try:
+        _copy_tree(tmp)
+        r = subprocess.run(["patch", "-p1", "-s", "-f", "--no-backup-if-mismatch", "-i", patch], cwd=tmp, capture_output=True, text=True)
+        if r.returncode != 0:
+            return name, "skipped", "patch does not apply to this tree", []
+        env = dict(os.environ, RTCP_REPO=tmp, RTCP_EVIDENCE_DIR=os.path.join(tmp, "evidence"), VERIF_TIER="quick", RTCP_NO_CONTROLS="1")
+        r = subprocess.run([os.path.join(VERIF, "check"), prop, "--tier", "quick"], env=env, capture_output=True, text=True)
+        known = [l[:200] for l in r.stdout.splitlines() if l.startswith("KNOWN-FINDING")]
+        viol = [l[:200] for l in r.stdout.splitlines() if l.startswith("VIOLATION")]
+        rc = r.returncode if r.returncode != 0 else (3 if known else 0)
+        return name, rc, "", (viol + known)
+    finally:
+        shutil.rmtree(tmp, ignore_errors=True)
+
+
 def seeded_for(prop):
     out = []
     sd = os.path.join(VERIF, "seeded")
@@ -245,12 +269,15 @@ def run(ctx, res, prop, equiv_names=None, max_workers=8):
         for name, file, old, new, props in BREAK:
             if prop in props:
                 jobs.append(("break", ex.submit(_text_control, prop, name, file, old, new)))
+        for name, patch, props in REPAIRS:
+            if prop in props:
+                jobs.append(("repair", ex.submit(_repair_control, prop, name, os.path.join(VERIF, patch))))
         files = anchor_files(prop)
         for name, file, old, new in EQUIV:
             # only rewrites of code the property is anchored in (src/utils.rs is shared by every parser and writer)
             if (equiv_names is None or name in equiv_names) and (files is None or file in files or file == "src/utils.rs"):
                 jobs.append(("equiv", ex.submit(_text_control, prop, name, file, old, new)))
-        out = {"break": [], "equiv": [], "mismatch": [], "skipped": []}
+        out = {"break": [], "equiv": [], "repair": [], "mismatch": [], "skipped": []}
         for kind, fut in jobs:
             name, rc, why, rules = fut.result()
             if rc == "skipped":
@@ -263,5 +290,5 @@ def run(ctx, res, prop, equiv_names=None, max_workers=8):
                 out["mismatch"].append(rec)
                 print(f"CONTROL-MISMATCH property={prop} control={name} kind={kind} exit={rc}")
     res.controls = out
-    print(f"  controls: {len(out['break'])} breaking edits reported, {len(out['equiv'])} equivalent rewrites silent, "
+    print(f"  controls: {len(out['break'])} breaking edits reported, {len(out['equiv'])} equivalent rewrites silent, {len(out['repair'])} repairs of recorded findings silent, "
           f"{len(out['mismatch'])} mismatches, {len(out['skipped'])} skipped")
